@@ -184,180 +184,300 @@ def _calls(fi, name):
     ]
 
 
+def _loops_of(F, node):
+    fors = []
+    cur = F.module.parents.get(node)
+    while cur is not None and cur is not F.node:
+        if isinstance(cur, (ast.For, ast.ListComp, ast.GeneratorExp)):
+            fors.append(cur)
+        cur = F.module.parents.get(cur)
+    return fors
+
+
+def _iter_text(ctx, F, lp):
+    it = lp.iter if isinstance(lp, ast.For) else lp.generators[0].iter
+    return ctx.norm.xtext(F, it).replace(" ", "")
+
+
+def _over_all_operations(ctx, F, node):
+    """node sits inside `for job in instance.jobs: for operation in job`."""
+    its = [_iter_text(ctx, F, lp) for lp in _loops_of(F, node)]
+    return any(t.endswith("instance.jobs") for t in its) and not any(
+        isinstance(x, (ast.Break, ast.Continue)) for lp in _loops_of(F, node) if isinstance(lp, ast.For) for x in ast.walk(lp)
+    )
+
+
+def _sym_var(ctx, F, e):
+    """('start'|'end', key expression) for an expression denoting a CP variable
+    taken from self._operations_start[key]."""
+    x = ctx.norm.xexpr(F, e)
+    if isinstance(x, ast.Subscript) and isinstance(x.slice, ast.Constant) and x.slice.value in (0, 1):
+        base = x.value
+        if isinstance(base, ast.Subscript) and ast.unparse(base.value) == "self._operations_start":
+            return ("start" if x.slice.value == 0 else "end"), base.slice
+    return None
+
+
+def _position_of(ctx, F, key):
+    """(list text, base, offset) of an operation key such as job[position - 1]
+    or a loop variable of zip(job, job[1:])."""
+    if isinstance(key, ast.Subscript) and not isinstance(key.slice, ast.Slice):
+        lst = ast.unparse(key.value)
+        idx = key.slice
+        if isinstance(idx, ast.Name):
+            return lst, idx.id, 0
+        if isinstance(idx, ast.BinOp) and isinstance(idx.left, ast.Name) and isinstance(idx.right, ast.Constant) and isinstance(idx.right.value, int):
+            off = idx.right.value if isinstance(idx.op, ast.Add) else -idx.right.value if isinstance(idx.op, ast.Sub) else None
+            if off is not None:
+                return lst, idx.left.id, off
+        return None
+    if isinstance(key, ast.Name):
+        for kind, value, stmt in ctx.flow.defs(F).of(key.id):
+            if kind != "elem":
+                continue
+            it = stmt.iter if isinstance(stmt, ast.For) else getattr(stmt, "iter", None)
+            if it is None:
+                continue
+            t = ast.unparse(it).replace(" ", "")
+            v = ast.unparse(value).replace(" ", "")
+            if isinstance(it, ast.Call) and (ast.unparse(it.func) in ("zip",)) and len(it.args) == 2:
+                a0, a1 = (ast.unparse(a).replace(" ", "") for a in it.args)
+                if a1 == a0 + "[1:]":
+                    return a0, "#pairs", 0 if v == a0 else 1
+            if isinstance(it, ast.Call) and ast.unparse(it.func) in ("itertools.pairwise", "pairwise") and it.args:
+                # Defs maps both targets to the call; position from the target tuple
+                tg = stmt.target
+                if isinstance(tg, ast.Tuple) and len(tg.elts) == 2:
+                    a0 = ast.unparse(it.args[0]).replace(" ", "")
+                    return a0, "#pairs", 0 if ast.unparse(tg.elts[0]) == key.id else 1
+    return None
+
+
 def _shapes(ctx, cls):
     chk = ctx.chk
-    methods = list(cls.methods.values())
-    # end == start + duration, inside loops over all jobs / all operations
-    found = {"enddef": None, "prec": None, "nool": None, "maxeq": None, "minim": None}
-    for m in methods:
-        for c in _calls(m, "Add"):
-            a = c.args[0] if c.args else None
-            if isinstance(a, ast.Compare) and len(a.ops) == 1:
-                t = ast.unparse(a)
-                if isinstance(a.ops[0], ast.Eq) and "duration" in t:
-                    found["enddef"] = (m, c, a)
-                elif isinstance(a.ops[0], (ast.LtE, ast.GtE, ast.Lt, ast.Gt)) and "_operations_start" in t:
-                    found["prec"] = (m, c, a)
-        for c in _calls(m, "AddNoOverlap"):
-            found["nool"] = (m, c, None)
-        for c in _calls(m, "AddMaxEquality"):
-            found["maxeq"] = (m, c, None)
-        for c in _calls(m, "Minimize"):
-            found["minim"] = (m, c, None)
-    miss = [k for k, v in found.items() if v is None]
+    solve = cls.methods["solve"]
+    F = ctx.norm.flat(solve, depth=4)
+    found = {"enddef": [], "prec": [], "nool": [], "maxeq": [], "minim": []}
+    for c in _calls(F, "Add"):
+        a = c.args[0] if c.args else None
+        if isinstance(a, ast.Compare) and len(a.ops) == 1:
+            if isinstance(a.ops[0], ast.Eq) and "duration" in ctx.norm.xtext(F, a):
+                found["enddef"].append((c, a))
+            elif isinstance(a.ops[0], (ast.LtE, ast.GtE, ast.Lt, ast.Gt)):
+                found["prec"].append((c, a))
+    for k, nm in (("nool", "AddNoOverlap"), ("maxeq", "AddMaxEquality"), ("minim", "Minimize")):
+        found[k] = [(c, None) for c in _calls(F, nm)]
+    miss = [k for k, v in found.items() if not v]
     if miss:
         if not any(i["rule"] == "R03.b" and i["verdict"] != "holds" for i in chk.instances):
             raise AnalysisError(f"constraint shapes not found: {miss}")
         return
-
-    def loops_over_all_ops(m, node):
-        """node is nested in `for job in instance.jobs: for operation in job`."""
-        fors = []
-        cur = m.module.parents.get(node)
-        while cur is not None and cur is not m.node:
-            if isinstance(cur, ast.For):
-                fors.append(cur)
-            cur = m.module.parents.get(cur)
-        return fors
-
-    # end definition
-    m, c, a = found["enddef"]
-    l, r = a.left, a.comparators[0]
+    # ---- end == start + duration for every operation
+    c, a = found["enddef"][0]
     ok = False
-    for x, y in ((l, r), (r, l)):
-        if isinstance(x, ast.Name) and isinstance(y, ast.BinOp) and isinstance(y.op, ast.Add):
-            parts = {ast.unparse(y.left), ast.unparse(y.right)}
-            if any(p.endswith(".duration") for p in parts) and len(parts) == 2:
-                # x = end var, other part = start var: check NewIntVar names
+    for x, y in ((a.left, a.comparators[0]), (a.comparators[0], a.left)):
+        if isinstance(y, ast.BinOp) and isinstance(y.op, ast.Add):
+            parts = [ast.unparse(y.left), ast.unparse(y.right)]
+            if any(p.endswith(".duration") for p in parts) and not isinstance(x, ast.BinOp):
                 ok = True
-    fors = loops_over_all_ops(m, c)
-    over_all = len(fors) >= 2 and ast.unparse(fors[-1].iter).endswith("instance.jobs") and not any(isinstance(x, (ast.If, ast.Break, ast.Continue)) for f in fors for x in ast.walk(f) if x is not f and isinstance(x, (ast.Break, ast.Continue)))
-    if ok and over_all:
-        chk.ok("R03.b", m.qualname, m.loc(c), "end == start + duration for every operation of every job")
-    elif not ok:
-        chk.violation("R03.b", m, c, f"the end-time definition is `{ast.unparse(a)}`, not end == start + duration", loc=m.loc(c))
+    if not ok:
+        chk.violation("R03.b", F, c, f"the end-time definition is `{ast.unparse(a)}`, not end == start + duration", loc=F.loc(c))
+    elif not _over_all_operations(ctx, F, c):
+        chk.violation("R03.b", F, c, "start/end variables are not created for every operation of every job", loc=F.loc(c))
     else:
-        chk.violation("R03.b", m, c, "start/end variables are not created for every operation of every job", loc=m.loc(c))
-    # precedence
-    m, c, a = found["prec"]
-    t = ast.unparse(a).replace(" ", "")
-    fors = loops_over_all_ops(m, c)
-    rng = ast.unparse(fors[0].iter).replace(" ", "") if fors else ""
-    good_shape = (
-        isinstance(a.ops[0], ast.LtE) and "[position-1]][1]" in t.split("<=")[0] and "[position]][0]" in t.split("<=")[1]
-    ) or (
-        isinstance(a.ops[0], ast.GtE) and "[position]][0]" in t.split(">=")[0] and "[position-1]][1]" in t.split(">=")[1]
-    )
-    if not good_shape:
-        # generic: left must be an end ([1]) of the previous position, right a start ([0]) of the next
+        chk.ok("R03.b", solve.qualname, F.loc(c), "end == start + duration for every operation of every job")
+    # ---- job precedence
+    c, a = found["prec"][0]
+    l, r = _sym_var(ctx, F, a.left), _sym_var(ctx, F, a.comparators[0])
+    if l is None or r is None:
+        raise AnalysisError(f"{F.loc(c)}: precedence constraint operands not recognised ({ast.unparse(a)[:80]})")
+    if isinstance(a.ops[0], (ast.GtE, ast.Gt)):
+        l, r = r, l
+    strict = isinstance(a.ops[0], (ast.Lt, ast.Gt))
+    pl, pr = _position_of(ctx, F, l[1]), _position_of(ctx, F, r[1])
+    if pl is None or pr is None:
+        raise AnalysisError(f"{F.loc(c)}: operations of the precedence constraint not recognised")
+    shape_ok = l[0] == "end" and r[0] == "start" and pl[0] == pr[0] and pl[1] == pr[1] and pr[2] == pl[2] + 1 and not strict
+    if not shape_ok:
         chk.violation(
-            "R03.b", m, c,
-            f"the job-precedence constraint is `{ast.unparse(a)}`: it does not state end(previous position) <= start(next position)",
-            loc=m.loc(c),
-        )
-    elif rng != "range(1,len(job))" or len(fors) < 2 or not ast.unparse(fors[-1].iter).endswith("instance.jobs"):
-        chk.violation(
-            "R03.b", m, c,
-            f"job precedence is added over `{ast.unparse(fors[0].iter) if fors else '?'}`, not for every consecutive "
-            "pair of positions of every job: some successors may start before their predecessor ends",
-            loc=m.loc(c),
+            "R03.b", F, c,
+            f"the job-precedence constraint is `{ctx.norm.xtext(F, a)[:120]}`: it does not state "
+            "end(operation at position i) <= start(operation at position i+1)",
+            loc=F.loc(c),
         )
     else:
-        chk.ok("R03.b", m.qualname, m.loc(c), "end(position-1) <= start(position) for position in 1..len(job)-1, every job")
-    # no overlap: one per machine, over all intervals of that machine
-    m, c, _ = found["nool"]
-    fors = loops_over_all_ops(m, c)
-    arg = c.args[0] if c.args else None
-    ok = False
-    if fors and isinstance(arg, ast.Name):
-        outer = fors[-1]
-        it = ast.unparse(outer.iter)
-        # intervals list is created inside the per-machine loop and appended for every entry
-        created = any(isinstance(s, ast.Assign) and ast.unparse(s.targets[0]) == arg.id and isinstance(s.value, ast.List) and not s.value.elts for s in outer.body)
-        appended = any(
-            isinstance(x, ast.Call) and isinstance(x.func, ast.Attribute) and x.func.attr == "append" and ast.unparse(x.func.value) == arg.id
-            for s in outer.body for x in ast.walk(s)
-        )
-        direct = c in [getattr(s, "value", None) for s in outer.body]
-        if "machines_operations" in it and created and appended and direct:
-            ok = True
-    # the per-machine table must be filled from every operation by its machine id
-    fill_ok = False
-    for x in own_nodes(m.node):
-        if isinstance(x, ast.Call) and isinstance(x.func, ast.Attribute) and x.func.attr == "append" and isinstance(x.func.value, ast.Subscript):
-            if ast.unparse(x.func.value.value) == "machines_operations" and ast.unparse(x.func.value.slice) == "operation.machine_id":
-                f2 = loops_over_all_ops(m, x)
-                if len(f2) >= 2 and ast.unparse(f2[-1].iter).endswith("instance.jobs"):
-                    fill_ok = True
-    if ok and fill_ok:
-        chk.ok("R03.b", m.qualname, m.loc(c), "one AddNoOverlap per machine over all intervals of that machine")
-    else:
-        chk.violation(
-            "R03.b", m, c,
-            "the no-overlap constraint is not added once per machine over all of that machine's operations "
-            "(operations on one machine may overlap in the solution)",
-            loc=m.loc(c),
-        )
+        # coverage: all consecutive pairs of every job
+        lps = _loops_of(F, c)
+        its = [_iter_text(ctx, F, lp) for lp in lps]
+        lst = pl[0]
+        cover = False
+        if pl[1] == "#pairs":
+            cover = True
+        else:
+            lo, hi = pl[2], pr[2]
+            want = {f"range({-lo},len({lst}){'-' + str(hi) if hi > 0 else ''})"}
+            if lo == 0:
+                want.add(f"range(len({lst})-{hi})")
+            cover = bool(its) and its[0] in want
+        all_jobs = any(t.endswith("instance.jobs") for t in its)
+        if cover and all_jobs:
+            chk.ok("R03.b", solve.qualname, F.loc(c), "end(i) <= start(i+1) for every consecutive pair of every job")
+        else:
+            chk.violation(
+                "R03.b", F, c,
+                f"job precedence is added over `{its[0] if its else '?'}`, not for every consecutive pair of "
+                "positions of every job: some successors may start before their predecessor ends",
+                loc=F.loc(c),
+            )
+    # ---- one no-overlap per machine over all intervals of that machine
+    c, _ = found["nool"][0]
+    _no_overlap(ctx, F, solve, c)
+    ivs = _calls(F, "NewIntervalVar")
     odd = [
-        n for mm in methods for n in own_nodes(mm.node)
+        n for n in own_nodes(F.node)
         if isinstance(n, ast.Call) and isinstance(n.func, ast.Attribute)
         and n.func.attr in ("NewFixedSizeIntervalVar", "new_fixed_size_interval_var", "NewOptionalIntervalVar",
                             "new_optional_interval_var", "NewOptionalFixedSizeIntervalVar", "new_optional_fixed_size_interval_var")
     ]
     for n in odd:
         sz = ast.unparse(n.args[1]) if len(n.args) > 1 else "?"
-        if "Optional" in n.func.attr or "optional" in n.func.attr:
-            chk.violation("R03.b", m, n, "an optional interval is used: an operation may be left out of its machine's no-overlap constraint", loc=m.loc(n))
+        if "ptional" in n.func.attr:
+            chk.violation("R03.b", F, n, "an optional interval is used: an operation may be left out of its machine's no-overlap constraint", loc=F.loc(n))
         elif not sz.endswith("duration"):
             chk.violation(
-                "R03.b", m, n,
+                "R03.b", F, n,
                 f"an interval of fixed size `{sz}` (not the operation's duration) enters the no-overlap constraint: the "
                 "model is over- or under-constrained and the reported optimum is not the instance's optimum",
-                loc=m.loc(n),
+                loc=F.loc(n),
             )
-    ivs = [c2 for mm in methods for c2 in _calls(mm, "NewIntervalVar")]
     for c2 in ivs:
         if len(c2.args) >= 3:
             a0, a1, a2 = (ast.unparse(x) for x in c2.args[:3])
             if not ("start" in a0 and "duration" in a1 and "end" in a2):
-                chk.violation("R03.b", m, c2, f"interval variable built as ({a0}, {a1}, {a2}), expected (start, duration, end)", loc=m.loc(c2))
-    # makespan = max of all ends, minimise it
-    m, c, _ = found["maxeq"]
+                chk.violation("R03.b", F, c2, f"interval variable built as ({a0}, {a1}, {a2}), expected (start, duration, end)", loc=F.loc(c2))
+    # ---- makespan = max of all ends, minimise it
+    c, _ = found["maxeq"][0]
     a0 = ast.unparse(c.args[0]) if c.args else ""
-    a1 = c.args[1] if len(c.args) > 1 else None
-    src = a1
-    if isinstance(a1, ast.Name):
-        d = ctx.flow.defs(m).of(a1.id)
-        src = d[-1][1] if d else a1
+    src = ctx.norm.xexpr(F, c.args[1]) if len(c.args) > 1 else None
     ok = False
-    if a0 == "self._makespan" and isinstance(src, ast.ListComp) and len(src.generators) == 1:
+    if a0 == "self._makespan" and isinstance(src, (ast.ListComp, ast.GeneratorExp)) and len(src.generators) == 1:
         g = src.generators[0]
-        if ast.unparse(g.iter) == "self._operations_start.values()" and not g.ifs:
+        it = ast.unparse(g.iter)
+        if it in ("self._operations_start.values()",) and not g.ifs:
             tgt = g.target
             if isinstance(tgt, ast.Tuple) and len(tgt.elts) == 2 and isinstance(src.elt, ast.Name) and ast.unparse(tgt.elts[1]) == src.elt.id:
                 ok = True
             elif isinstance(src.elt, ast.Subscript) and ast.unparse(src.elt.slice) == "1":
                 ok = True
+        elif it == "self._operations_start.items()" and not g.ifs:
+            e = ast.unparse(src.elt)
+            if e.endswith("[1]") or (isinstance(g.target, ast.Tuple) and isinstance(g.target.elts[1], ast.Tuple) and ast.unparse(g.target.elts[1].elts[1]) == e):
+                ok = True
     if ok:
-        chk.ok("R03.b", m.qualname, m.loc(c), "makespan == max over the end variables of all operations")
+        chk.ok("R03.b", solve.qualname, F.loc(c), "makespan == max over the end variables of all operations")
     else:
         chk.violation(
-            "R03.b", m, c,
-            f"the makespan is tied to `{ast.unparse(src) if src is not None else '?'}`, not to the end variables of all "
+            "R03.b", F, c,
+            f"the makespan is tied to `{ast.unparse(src)[:100] if src is not None else '?'}`, not to the end variables of all "
             "operations: the reported optimum is not the schedule's makespan",
-            loc=m.loc(c),
+            loc=F.loc(c),
         )
-    m, c, _ = found["minim"]
+    c, _ = found["minim"][0]
     if c.args and ast.unparse(c.args[0]) == "self._makespan":
-        chk.ok("R03.b", m.qualname, m.loc(c), "Minimize(makespan)")
+        chk.ok("R03.b", solve.qualname, F.loc(c), "Minimize(makespan)")
     else:
-        chk.violation("R03.b", m, c, f"the objective is `{ast.unparse(c)}`, not Minimize(self._makespan)", loc=m.loc(c))
-    if any(isinstance(n, ast.Call) and isinstance(n.func, ast.Attribute) and n.func.attr in ("Maximize", "maximize") for mm in methods for n in own_nodes(mm.node)):
-        chk.violation("R03.b", m, c, "the model maximises an objective")
+        chk.violation("R03.b", F, c, f"the objective is `{ast.unparse(c)}`, not Minimize(self._makespan)", loc=F.loc(c))
+    if any(isinstance(n, ast.Call) and isinstance(n.func, ast.Attribute) and n.func.attr in ("Maximize", "maximize") for n in own_nodes(F.node)):
+        chk.violation("R03.b", F, c, "the model maximises an objective")
 
 
-def _status(ctx, cls, solve):
+def _no_overlap(ctx, F, solve, c):
+    """AddNoOverlap(X) once per machine; X = all intervals of that machine;
+    the per-machine table filled from every operation by its machine id."""
     chk = ctx.chk
+    arg = c.args[0] if c.args else None
+    loops = [lp for lp in _loops_of(F, c) if isinstance(lp, ast.For)]
+    bad = lambda why: chk.violation(  # noqa: E731
+        "R03.b", F, c,
+        "the no-overlap constraint is not added once per machine over all of that machine's operations "
+        f"(operations on one machine may overlap in the solution): {why}",
+        loc=F.loc(c),
+    )
+    if not loops:
+        return bad("AddNoOverlap is not inside a per-machine loop")
+    mloop = loops[0]
+    if any(isinstance(x, (ast.If, ast.Break, ast.Continue)) for x in ast.walk(mloop) if x is not mloop and isinstance(x, (ast.If, ast.Break, ast.Continue))):
+        # conditionals inside the per-machine loop (other than in nested helper inlines) may skip intervals
+        conds = [x for x in ast.walk(mloop) if isinstance(x, (ast.If, ast.Break, ast.Continue))]
+        if conds:
+            return bad("conditional statements inside the per-machine loop")
+    it = mloop.iter
+    table = it.args[0] if isinstance(it, ast.Call) and ast.unparse(it.func) == "enumerate" and it.args else it
+    if not isinstance(table, ast.Name):
+        return bad(f"per-machine loop iterates `{ast.unparse(it)}`")
+    tname = table.id
+    # element variable of the per-machine loop
+    tg = mloop.target
+    elem = tg.elts[1] if isinstance(tg, ast.Tuple) and isinstance(it, ast.Call) and ast.unparse(it.func) == "enumerate" else tg
+    if not isinstance(elem, ast.Name):
+        return bad("per-machine element not a simple name")
+    ename = elem.id
+    # X covers all entries of the element
+    x = arg
+    full = False
+    if isinstance(x, ast.Name):
+        ds = ctx.flow.defs(F).of(x.id)
+        for kind, value, stmt in ds:
+            if isinstance(value, (ast.ListComp, ast.GeneratorExp)) and len(value.generators) == 1:
+                g = value.generators[0]
+                if ast.unparse(g.iter) == ename and not g.ifs and isinstance(value.elt, ast.Call) and canon(getattr(value.elt.func, "attr", "")) in ("NewIntervalVar",):
+                    full = True
+            elif isinstance(value, ast.List) and not value.elts:
+                # filled by append in a loop over the element
+                for n in ast.walk(mloop):
+                    if isinstance(n, ast.For) and ast.unparse(n.iter) == ename:
+                        apps = [y for y in ast.walk(n) if isinstance(y, ast.Call) and isinstance(y.func, ast.Attribute) and y.func.attr == "append" and ast.unparse(y.func.value) == x.id]
+                        if len(apps) == 1:
+                            full = True
+    elif isinstance(x, (ast.ListComp, ast.GeneratorExp)) and len(x.generators) == 1:
+        g = x.generators[0]
+        full = ast.unparse(g.iter) == ename and not g.ifs
+    if not full:
+        return bad("the interval list does not contain one interval for every entry of the machine")
+    # table: one list per machine, filled from every operation by machine id
+    created = False
+    filled = False
+    for n in own_nodes(F.node):
+        if isinstance(n, (ast.Assign, ast.AnnAssign)):
+            t = n.targets[0] if isinstance(n, ast.Assign) else n.target
+            if isinstance(t, ast.Name) and t.id == tname and isinstance(n.value, ast.ListComp):
+                g = n.value.generators[0]
+                if ast.unparse(g.iter).replace(" ", "").endswith("range(instance.num_machines)") and isinstance(n.value.elt, ast.List) and not n.value.elts if False else ast.unparse(g.iter).replace(" ", "").endswith("range(instance.num_machines)"):
+                    created = True
+        if isinstance(n, ast.Call) and isinstance(n.func, ast.Attribute) and n.func.attr == "append" and isinstance(n.func.value, ast.Subscript):
+            if ast.unparse(n.func.value.value) == tname and ctx.norm.xtext(F, n.func.value.slice).endswith("operation.machine_id"):
+                if _over_all_operations(ctx, F, n) and not any(isinstance(p, ast.If) for p in _if_parents(F, n)):
+                    filled = True
+    if not created:
+        return bad(f"`{tname}` is not created with one list per machine")
+    if not filled:
+        return bad(f"`{tname}` is not filled from every operation under its machine id")
+    chk.ok("R03.b", solve.qualname, F.loc(c), "one AddNoOverlap per machine over all intervals of that machine")
+
+
+def _if_parents(F, node):
+    out = []
+    cur = F.module.parents.get(node)
+    while cur is not None and cur is not F.node:
+        if isinstance(cur, ast.If):
+            out.append(cur)
+        cur = F.module.parents.get(cur)
+    return out
+
+
+def _status(ctx, cls, solve_raw):
+    chk = ctx.chk
+    solve = ctx.norm.flat(solve_raw, depth=2)
     guards = [n for n in own_nodes(solve.node) if isinstance(n, ast.If) and any(isinstance(x, ast.Raise) for x in n.body)]
     ok = False
     for g in guards:
@@ -419,6 +539,9 @@ def _status(ctx, cls, solve):
 def _rebuild(ctx, cls):
     chk = ctx.chk
     cs = cls.methods.get("_create_schedule")
+    if cs is None:
+        raise AnalysisError("_create_schedule vanished")
+    cs = ctx.norm.flat(cs)
     sorts = [
         n for n in own_nodes(cs.node)
         if isinstance(n, ast.Call) and ((isinstance(n.func, ast.Name) and n.func.id == "sorted") or (isinstance(n.func, ast.Attribute) and n.func.attr == "sort"))
@@ -430,10 +553,22 @@ def _rebuild(ctx, cls):
         if any(k.arg == "reverse" and not (isinstance(k.value, ast.Constant) and k.value.value is False) for k in s.keywords):
             chk.violation("R03.d", cs, s, "machine sequences are sorted in reverse", loc=cs.loc(s))
             continue
-        if not isinstance(key, ast.Lambda):
-            raise AnalysisError("_create_schedule: sort key not a lambda")
-        p = key.args.args[0].arg
-        b = key.body
+        if isinstance(key, (ast.Name, ast.Attribute)):
+            ts, _ = ctx.res.callees(cs, ast.Call(func=key, args=[], keywords=[]), cs.cls) if False else ([], None)
+            q = ctx.repo.resolve(cs.module.name, ast.unparse(key))
+            kf = ctx.repo.functions.get(q or "")
+            if kf is None and isinstance(key, ast.Attribute) and cs.cls is not None:
+                kf = ctx.repo.method(cs.cls, key.attr)
+            rets = [r for r in own_nodes(kf.node) if isinstance(r, ast.Return)] if kf is not None else []
+            if kf is None or len(rets) != 1 or not kf.params:
+                raise AnalysisError("_create_schedule: sort key function not recognised")
+            p = kf.params[-1]
+            b = rets[0].value
+        elif isinstance(key, ast.Lambda):
+            p = key.args.args[0].arg
+            b = key.body
+        else:
+            raise AnalysisError("_create_schedule: sort key not recognised")
         if isinstance(b, ast.Tuple) and len(b.elts) >= 2:
             e0, e1 = ast.unparse(b.elts[0]), ast.unparse(b.elts[1])
             if e0 == f"{p}.start_time" and (e1 == f"{p}.end_time" or e1.endswith(".duration")):
